@@ -71,7 +71,20 @@ bool __CPROVER_uninterpreted_is_listening(void *sock);
 extern size_t g_listen_q_calls; extern void *g_listen_q_sock;
 static inline bool sock_is_listening(void *sock) { g_listen_q_calls++; g_listen_q_sock = sock; return __CPROVER_uninterpreted_is_listening(sock); }
 extern size_t g_nfwd_count; extern struct packet g_nfwd_last;
-static inline void simnet_forward_packet(struct packet p) { g_nfwd_count++; g_nfwd_last = p; }
+/* forward_packet runs synchronously through the hops up to the first queue: a NAT among them rewrites the connector's
+ * visible endpoint in the SYN's channel (nat::incoming_packet, under contract in the nat unit).  The views the hops see,
+ * and what they leave behind, are recorded. */
+extern ep_t g_nfwd_vis0_seen, g_nfwd_vis1_seen, g_nfwd_vis0_left;
+static inline void simnet_forward_packet(struct packet p)
+{
+  g_nfwd_count++; g_nfwd_last = p;
+  if (p.type == PKT_syn && p.channel != (struct channel *)0)
+  {
+    g_nfwd_vis0_seen = p.channel->visible_ep[0]; g_nfwd_vis1_seen = p.channel->visible_ep[1];
+    ep_t v = nondet_ep(); __CPROVER_assume(EP_VALID(v));
+    p.channel->visible_ep[0] = v; g_nfwd_vis0_left = v;
+  }
+}
 extern size_t g_new_channel_calls;
 void *malloc(size_t);
 static inline struct channel *make_channel(void)
@@ -80,7 +93,7 @@ static inline struct channel *make_channel(void)
   CHANNEL_SET_DEFAULTS(c); c->bytes_sent[0] = 0; c->bytes_sent[1] = 0;     /* aux::channel::channel() is under contract in the channel unit */
   g_new_channel_calls++; return c;
 }
-#define NET_GHOST g_cfgroute_calls, g_cfgroute_src, g_cfgroute_dst, g_cfgroute_result, g_inroute_sock, g_inroute_sock2, g_inroute_calls, g_outroute_calls, g_listen_q_calls, g_listen_q_sock, g_nfwd_count, g_nfwd_last
+#define NET_GHOST g_cfgroute_calls, g_cfgroute_src, g_cfgroute_dst, g_cfgroute_result, g_inroute_sock, g_inroute_sock2, g_inroute_calls, g_outroute_calls, g_listen_q_calls, g_listen_q_sock, g_nfwd_count, g_nfwd_last, g_nfwd_vis0_seen, g_nfwd_vis1_seen, g_nfwd_vis0_left
 #define MAP_GHOST g_map_inserts, g_map_erases
 #define SIMNET_FRESH(self) (__CPROVER_is_fresh(self, sizeof(*self)) && EPMAP_OK((self)->m_listen_sockets) && EPMAP_OK((self)->m_udp_sockets))
 #endif
